@@ -1,4 +1,5 @@
 import Driver.C04
+import Driver.C03Asm
 import Driver.C01_Opnd
 import Driver.C19L
 import Driver.C10R
@@ -41,6 +42,8 @@ partial def loop (h : IO.FS.Stream) (out : IO.FS.Stream) (f : String → String)
   loop h out f
 
 def modes : List (String × (String → String)) := [
+  ("c03bin", C03Asm.handleBin),
+  ("c03stk", C03Asm.handleStk),
   ("c16carry", C16.handleCarry),
   ("c16def", C16.handleDef),
   ("c16px", C16.handlePx),
